@@ -560,10 +560,14 @@ def check_exchange(S, rec, rng):
     interim = b"HTTP/1.1 100 Continue\r\n\r\n"
     if expect:
         case["expect"] = True
-        if not out.startswith(interim):
+        if not out.startswith(interim) and not respond_first:
+            # the application read the body before it answered: a client that waits for the interim response would stall
             rec.violation("C19/no-interim-response-for-expect-100-continue", f"the client asked for 100 Continue and received {out[:80]!r}; {case}", case, monitor="wire-parser")
             return
-        out = out[len(interim):]
+        # (an application that answers before it reads may or may not cause an interim response in front of its answer;
+        # what follows must be its answer and nothing else either way)
+        if out.startswith(interim):
+            out = out[len(interim):]
         if out.startswith(interim):
             # http.server answers the expectation itself when both sides speak HTTP/1.1, werkzeug does it again: two
             # interim responses are legal (a client must be prepared for any number of 1xx responses)
